@@ -166,6 +166,15 @@ pub fn clause_of(m: &str) -> String {
 fn main_check(ctx: &Ctx) -> Outcome {
     let mut out = Outcome::default();
     let quick = ctx.quick();
+    // (0) the lock()ed strip streams over the real stdout/stderr (single-threaded, first): what was written before
+    //     and after lock() together must come out as the stripped form, for every cut position
+    {
+        let (n, bad) = vchecks::stdio_sys::lock_chunking_violations();
+        for (case, message) in bad.into_iter().take(20) {
+            out.findings.push(finding("StripStream/AutoStream::never over real stdio: write_all; lock(); write_all", "output-differs-from-model", vec![case], message, json!({"kind":"lock"})));
+        }
+        out.push_part(json!({"system":"write_all; lock(); write_all over the real stdout/stderr redirected to files, every cut position","cases":n}));
+    }
     let (alpha, nclasses) = class_alphabet();
     let reps = class_reps();
     out.set("byte_classes", json!(nclasses));
@@ -413,6 +422,10 @@ fn replay(v: &serde_json::Value) -> Result<(), String> {
             let b = unhex(v["chunk"].as_str().unwrap());
             run_strip_str(&mut imp, &mut model, std::str::from_utf8(&b).unwrap()).map(|_| ())
         }
+        "lock" => match vchecks::stdio_sys::lock_chunking_violations().1.first() {
+            Some((c, m)) => Err(format!("{c}: {m}")),
+            None => Ok(()),
+        },
         "large" => match large_case(v["n"].as_u64().unwrap_or(0) as usize, v["shift"].as_u64().unwrap_or(0) as usize).into_iter().next() {
             Some((sys, m)) => Err(format!("{sys}: {}", m.chars().take(600).collect::<String>())),
             None => Ok(()),
